@@ -182,6 +182,63 @@ def lit_axioms():
 
 _ctr = [0]
 
+# ---- lambda lifting -------------------------------------------------------------------------------
+# A comprehension evaluated under a quantifier would put a lambda term with free bound variables inside the
+# quantifier, on which z3's array theory is incomplete ("incomplete (theory array)").  Such a lambda is replaced
+# by a fresh function of the bound variables, defined by one axiom (a conservative extension).  Structurally
+# identical comprehensions share their function.
+LIFTED: Dict[str, Any] = {}      # function name -> defining axiom
+_lift_keys: Dict[str, Any] = {}
+
+
+def lift_lambda(bound, j, body):
+    """Lambda([j], body) where body mentions some of the variables `bound` -> term F(*fv) with its axiom registered."""
+    fv = [v for v in bound if _occurs(v, body)]
+    if not fv:
+        return z3.Lambda([j], body)
+    canon = [z3.Const(f"lv!{i}", v.sort()) for i, v in enumerate(fv)]
+    jc = z3.Const("lj!", j.sort())
+    nb = z3.substitute(body, *list(zip(fv, canon)), (j, jc))
+    key = ",".join(str(c.sort()) for c in canon) + "|" + nb.sexpr()
+    if key not in _lift_keys:
+        name = f"lift!{len(_lift_keys)}"
+        F = z3.Function(name, *[v.sort() for v in fv], z3.ArraySort(j.sort(), body.sort()))
+        ax = z3.ForAll(canon + [jc], F(*canon)[jc] == nb, patterns=[F(*canon)[jc]])
+        LIFTED[name] = ax
+        _lift_keys[key] = F
+    return _lift_keys[key](*fv)
+
+
+def _occurs(v, e):
+    todo, seen = [e], set()
+    while todo:
+        x = todo.pop()
+        if x.get_id() in seen: continue
+        seen.add(x.get_id())
+        if z3.eq(x, v): return True
+        if z3.is_quantifier(x): todo.append(x.body())
+        elif z3.is_app(x): todo.extend(x.children())
+    return False
+
+
+def lifted_axioms_for(exprs):
+    """the defining axioms of the lifted functions that occur in exprs (closed under dependency)"""
+    if not LIFTED: return []
+    names, out, todo = set(), [], list(exprs)
+    seen = set()
+    while todo:
+        x = todo.pop()
+        if x.get_id() in seen: continue
+        seen.add(x.get_id())
+        if z3.is_quantifier(x):
+            todo.append(x.body()); continue
+        if z3.is_app(x):
+            n = x.decl().name()
+            if n in LIFTED and n not in names:
+                names.add(n); out.append(LIFTED[n]); todo.append(LIFTED[n])
+            todo.extend(x.children())
+    return out
+
 
 def fresh(prefix, sort):
     _ctr[0] += 1
@@ -212,11 +269,14 @@ class SSeq(SV):        # immutable sequence value (tuple, or the value held by a
     n: Any             # z3 Int
     arr: Any           # z3 Array Int -> elem sort (normalised)
     ty: Any = None
+    setview: Any = None   # optional: membership array of the set of elements (when the sequence enumerates a dict / set)
+    pk: Any = None        # optional: the datatype term this value was unpacked from (kept so that terms stay syntactically equal)
 
     def __post_init__(self):
         self.ty = ("seq", self.elem)
 
     def packed(self):
+        if self.pk is not None: return self.pk
         return seq_sort(sort_of(self.elem)).mk(self.n, self.arr)
 
 
@@ -281,6 +341,7 @@ class SOpaque(SV):     # a value we do not model (messages, ...)
 class STuple(SV):      # a small heterogeneous tuple of known length (e.g. `return dmax, order`, `(edge.id, ids)`)
     items: Any
     ty: Any = "tuple"
+    pk: Any = None     # the datatype term this tuple was unpacked from, if any
 
     def __post_init__(self):
         tys = [getattr(v, "ty", None) for v in self.items]
@@ -315,14 +376,14 @@ def obj_fn(name, *sorts):
 
 def unpack_seq(elem_ty, term) -> SSeq:
     S = seq_sort(sort_of(elem_ty))
-    return SSeq(elem_ty, S.len(term), S.arr(term))
+    return SSeq(elem_ty, S.len(term), S.arr(term), pk=term)
 
 
 def wrap(ty, term) -> SV:
     """Wrap a z3 term of sort_of(ty) as a symbolic value."""
     if isinstance(ty, tuple) and ty[0] == "tup":
         T = tup_sort(ty[1:])
-        return STuple([wrap(t, getattr(T, f"t{i}")(term)) for i, t in enumerate(ty[1:])])
+        return STuple([wrap(t, getattr(T, f"t{i}")(term)) for i, t in enumerate(ty[1:])], pk=term)
     if isinstance(ty, tuple) and ty[0] in ("seq", "list"):
         return unpack_seq(ty[1], term)
     if isinstance(ty, tuple) and ty[0] == "set":
@@ -336,6 +397,7 @@ def term_of(v: SV):
     if isinstance(v, SSeq): return v.packed()
     if isinstance(v, SSetV): return v.mem
     if isinstance(v, SNone): return Id.NoneId
+    if isinstance(v, STuple) and v.pk is not None: return v.pk
     if isinstance(v, STuple) and isinstance(v.ty, tuple):
         return tup_sort(v.ty[1:]).mk(*[term_of(x) for x in v.items])
     raise TypeError(f"no term for {v}")
